@@ -217,6 +217,15 @@ def job_axang(ctx, lo, hi):
         lg2 = np.asarray(Qq.log)
         ctx.close(np.asarray(Quaternion(lg2.copy(), versor=False).exp) if np.any(lg2) else one, qref, tl, 'exp(log q) = q (unit, .log/.exp aliases)', key)
         ctx.close(lg, np.array([0.0, *(0.5 * ang * n)]), 1e-9 if wellc else 1e-7, 'log q = (0, theta/2 n)', key)
+        # composition: the 3-element vector part of a logarithm (half rotation vector) fed back as a pure, NON-versor quaternion
+        if ang >= 1e-2:
+            for nm3, v3 in (('log(q)[1:]', lg[1:].copy()), ('theta/2 n', 0.5 * ang * n)):
+                try:
+                    P3 = Quaternion(v3.copy(), versor=False)
+                    ctx.close(np.asarray(P3, float), np.array([0.0, *v3]), 1e-15, 'Quaternion(3-vector, versor=False) = (0, v) with its norm kept', f'{key} v={nm3}')
+                    ctx.close(np.asarray(P3.exponential, float), qref, 1e-9, 'exp of the pure quaternion built from a 3-vector with versor=False = q', f'{key} v={nm3}')
+                except Exception as ex:
+                    ctx.fail('Quaternion(3-vector, versor=False).exponential raises', f'{key} v={nm3}', repr(ex)[:120], qref)
         ctx.cls('explog:unit')
         ctx.cls('axang')
         ctx.seen(('axang', ia, ang))
@@ -343,6 +352,12 @@ def job_seq(ctx, lo, hi):
                 ctx.close(np.asarray(rotation(axn, a)), ELEM[axn](a), 1e-12, 'rotation(ax, ang) = elementary rotation', key)
                 ctx.close(np.asarray(rotation(axn, math.degrees(a), degrees=True)), ELEM[axn](a), 1e-12, 'rotation(ax, ang, degrees=True)', key)
                 ctx.close(np.asarray(rotation('xyz'.index(axn), a)), ELEM[axn](a), 1e-12, 'rotation(int axis)', key)
+                ctx.close(np.asarray(rotation(axn.upper(), a)), ELEM[axn](a), 1e-12, 'rotation(upper-case axis letter)', key)
+                if axn == 'z':
+                    # the axis omitted / None: the documented default is the Z-axis
+                    ctx.close(np.asarray(rotation(ang=a)), ELEM['z'](a), 1e-12, 'rotation(ang=) with the axis omitted = rotation about z (documented default)', key)
+                    ctx.close(np.asarray(rotation(None, a)), ELEM['z'](a), 1e-12, 'rotation(None, ang) = rotation about z (documented default)', key)
+                    ctx.close(np.asarray(rotation(ang=math.degrees(a), degrees=True)), ELEM['z'](a), 1e-12, 'rotation(ang=, degrees=True) with the axis omitted = rotation about z', key)
                 kw = {axn: a}
                 ctx.close(np.asarray(DCM(**kw)), ELEM[axn](a), 1e-12, 'DCM(x=|y=|z=) = elementary rotation', key)
                 kw = {axn: math.degrees(a), 'degrees': True}
